@@ -78,3 +78,32 @@ Proof. reflexivity. Qed.
 (* and so is the comparison `prev > N` *)
 Theorem off_by_one_refuted : length (filter (fun p : nat*nat => snd p <=? 1) (log (run [(0,Rmw);(1,Rmw);(2,Rmw)]))) = 2.
 Proof. reflexivity. Qed.
+
+(* ---- rejected calls.  A call whose `when` is false performs no shared step at all (its evaluation of the condition, its panic, are
+   Local): wherever such calls are scheduled, and however many, the RMW log (hence who is admitted) is that of the schedule with them
+   removed. ---- *)
+Definition is_rmw (ta:nat*action) : bool := match snd ta with Rmw => true | Local => false end.
+Lemma step_local s ta : is_rmw ta = false -> step s ta = s.
+Proof. unfold is_rmw, step. destruct (snd ta); [discriminate|reflexivity]. Qed.
+Theorem rejected_calls_are_invisible c0 sched : run_from c0 sched = run_from c0 (filter is_rmw sched).
+Proof. unfold run_from. generalize {| ctr := c0; log := [] |}. induction sched as [|ta l IH]; intros s; cbn [filter fold_left]; [reflexivity|].
+  destruct (is_rmw ta) eqn:E; cbn [fold_left]; [apply IH|]. rewrite (step_local s ta E). apply IH. Qed.
+Corollary rejected_calls_never_change_admission N sched : admitted N (run sched) = admitted N (run (filter is_rmw sched)).
+Proof. unfold run. rewrite (rejected_calls_are_invisible 0 sched). reflexivity. Qed.
+
+(* the variant that counts first and asks afterwards — every call increments before its `when` is evaluated, a rejected call gives the
+   slot back — is exact on one thread and refuted on two: while a call that WILL be rejected is between its increment and its
+   roll-back, a matching call reads a previous value that is one too high.  N = 1, one matching call (thread 0), one non-matching
+   call (thread 1) in flight: the matching call is refused although it is the first. *)
+Inductive action3 := IncMatch | IncReject | GiveBack.
+Record sh3 := { c3 : nat; adm3 : list nat; refused3 : list nat }.
+Definition step3 (N:nat) (s:sh3) (ta:nat*action3) : sh3 :=
+  let t := fst ta in match snd ta with
+  | IncMatch => {| c3 := S (c3 s); adm3 := if c3 s <? N then t :: adm3 s else adm3 s; refused3 := if c3 s <? N then refused3 s else t :: refused3 s |}
+  | IncReject => {| c3 := S (c3 s); adm3 := adm3 s; refused3 := refused3 s |}
+  | GiveBack => {| c3 := pred (c3 s); adm3 := adm3 s; refused3 := refused3 s |} end.
+Definition run3 (N:nat) (sched:list (nat*action3)) := fold_left (step3 N) sched {| c3 := 0; adm3 := []; refused3 := [] |}.
+Theorem count_first_ask_later_refuted :
+  adm3 (run3 1 [(1,IncReject); (0,IncMatch); (1,GiveBack)]) = [] /\ refused3 (run3 1 [(1,IncReject); (0,IncMatch); (1,GiveBack)]) = [0]
+  /\ adm3 (run3 1 [(1,IncReject); (1,GiveBack); (0,IncMatch)]) = [0].      (* the same calls one after the other: admitted *)
+Proof. repeat split; reflexivity. Qed.
